@@ -210,8 +210,16 @@ def namedStr (n : Named Float) : String :=
 def logStr (l : List (DrawRec Float)) : String :=
   " ".intercalate (s!"{l.length}" :: l.reverse.map (fun r => s!"{r.kind} {r.id} {r.pass} {r.result} {fList r.weights}"))
 
-def outStr (o : SolveOut Float) : String :=
-  s!"ok {o.iters} {extStr o.regOne} {extStr o.regTwo} {stratStr o.stratOne} {stratStr o.stratTwo} L {logStr o.log}"
+/-- a dense strategy with its infoset and action labels (zero probabilities included) -/
+def fullNamed (infos : List PInfo) (σ : Strat Float) : String :=
+  " ".intercalate (s!"{infos.length}" :: (infos.zip σ).map (fun (i, v) =>
+    " ".intercalate (s!"{i.label} {v.length}" :: (i.actions.zip v).map (fun (a, p) => s!"{a} {fHex p}"))))
+
+def profStr (g : Game Float) (a b : Strat Float) : String :=
+  s!"{fullNamed g.p1 a} {fullNamed g.p2 b}"
+
+def outStr (g : Game Float) (o : SolveOut Float) : String :=
+  s!"ok {o.iters} {extStr o.regOne} {extStr o.regTwo} {profStr g o.stratOne o.stratTwo} L {logStr o.log}"
 
 /-! ## commands -/
 
@@ -228,9 +236,9 @@ def withProfile (g : Game Float) (k : (Bool → Strat Float) → P String) : P S
   | .error e => pure s!"err strat {stratErr e}"
   | .ok (a, b) => k (fun one => if one then a else b)
 
-def resStr : Except StratError (Strat Float × Strat Float) → String
+def resStr (g : Game Float) : Except StratError (Strat Float × Strat Float) → String
   | .error e => s!"err {stratErr e}"
-  | .ok (a, b) => s!"ok {stratStr a} {stratStr b}"
+  | .ok (a, b) => s!"ok {profStr g a b}"
 
 /-- drain the two iterators of `as_named`, querying `len` before every `next` -/
 partial def drainActs (it : ActIter Float) (acc : List String) : List String :=
@@ -257,21 +265,27 @@ def cmd : P String := do
     withGame fun g => do
       let n1 ← pNamed
       let n2 ← pNamed
-      pure s!"A {resStr (fromNamed g n1 n2)} B {resStr (fromNamedEq g n1 n2)}"
+      pure s!"A {resStr g (fromNamed g n1 n2)} B {resStr g (fromNamedEq g n1 n2)}"
   else if c == "named" then
     withGame fun g => withProfile g fun σ => do
       let one := drainInfos ⟨g.p1, σ true, g.s1⟩ []
       let two := drainInfos ⟨g.p2, σ false, g.s2⟩ []
       pure s!"ok {" ".intercalate one.reverse} | {" ".intercalate two.reverse}"
+  else if c == "namedtrunc" then
+    withGame fun g => withProfile g fun σ => do
+      let h ← pFloat
+      let one := drainInfos ⟨g.p1, truncate h (σ true), g.s1⟩ []
+      let two := drainInfos ⟨g.p2, truncate h (σ false), g.s2⟩ []
+      pure s!"ok {" ".intercalate one.reverse} | {" ".intercalate two.reverse}"
   else if c == "roundtrip" then
     withGame fun g => withProfile g fun σ => do
       let n1 := asNamed g.p1 g.s1 (σ true)
       let n2 := asNamed g.p2 g.s2 (σ false)
-      pure s!"{resStr (fromNamed g n1 n2)}"
+      pure s!"{resStr g (fromNamed g n1 n2)}"
   else if c == "truncate" then
     withGame fun g => withProfile g fun σ => do
       let h ← pFloat
-      pure s!"ok {stratStr (truncate h (σ true))} {stratStr (truncate h (σ false))}"
+      pure s!"ok {profStr g (truncate h (σ true)) (truncate h (σ false))}"
   else if c == "distance" then
     withGame fun g => withProfile g fun σ => withProfile g fun τ => do
       let p ← pFloat
@@ -294,15 +308,15 @@ def cmd : P String := do
       let mode ← tok
       let draw := drawHash seed.toUInt64
       if mode == "single" then
-        if m == "F" then pure (outStr (solveVanillaSingle g false p draw T thr))
-        else if m == "S" then pure (outStr (solveVanillaSingle g true p draw T thr))
-        else if m == "E" then pure (outStr (solveExternalSingle g p draw T thr))
+        if m == "F" then pure (outStr g (solveVanillaSingle g false p draw T thr))
+        else if m == "S" then pure (outStr g (solveVanillaSingle g true p draw T thr))
+        else if m == "E" then pure (outStr g (solveExternalSingle g p draw T thr))
         else throw s!"bad method {m}"
       else if mode == "multi" then
         let target ← pNat
-        if m == "F" then pure (outStr (solveVanillaMulti g false p draw T thr target))
-        else if m == "S" then pure (outStr (solveVanillaMulti g true p draw T thr target))
-        else if m == "E" then pure (outStr (solveExternalMulti g p draw T thr target))
+        if m == "F" then pure (outStr g (solveVanillaMulti g false p draw T thr target))
+        else if m == "S" then pure (outStr g (solveVanillaMulti g true p draw T thr target))
+        else if m == "E" then pure (outStr g (solveExternalMulti g p draw T thr target))
         else throw s!"bad method {m}"
       else throw s!"bad mode {mode}"
   else if c == "presets" then
